@@ -3,13 +3,13 @@
 model-checking / simulation / replay front-end from one table, so that they cannot drift apart."""
 import os
 HERE = os.path.dirname(os.path.abspath(__file__))
-ALL = "C07 C16 C01 C02 C03 C04 C05 C06 C08 C11 C12 C13 C14 C15 StoreAgrees"
+ALL = "C07 C16 C01 C02 C03 C04 C05 C06 C08 C11 C12 C13 C14 C15 StoreAgrees ReopenArmed"
 BASE = dict(
     NVB="2", InitLog="<- HistA", MaxSeq="3", Keys='{"user"}', Kinds='{"mut", "sys", "adv"}', OldEvents="FALSE",
     BadEvents="FALSE", FoUuid="<- Fo10", Savers='{"p"}', MaxSaves="2", MaxCrash="1", MaxAcks="2", MaxGen="2",
     MaxNotify="0", MaxEnds="0", MaxFail="0", AutoReset='"earliest"', Finite="FALSE", AutoCkpt="FALSE",
     Infos="<- NoInfos", Info0="<- Info11", EndCauses="{}", Hold="FALSE", AllowClose="FALSE", Rollbacks="FALSE",
-    FailSaves="TRUE", Focus="TRUE", Record="FALSE", ReadOnly="FALSE", RM="FALSE", Slots="1", RmUuids="{1, 2}", RmMonotone="FALSE", Scrapes="FALSE", HookScrapes="FALSE", Marking="FALSE", WindAt="0", Gaps="{}", Bugs="{}")
+    FailSaves="TRUE", Focus="TRUE", Record="FALSE", ReadOnly="FALSE", AckSplit="FALSE", RM="FALSE", Slots="1", RmUuids="{1, 2}", RmMonotone="FALSE", Scrapes="FALSE", HookScrapes="FALSE", Marking="FALSE", WindAt="0", Gaps="{}", Bugs="{}")
 DATA = dict(BASE)
 GEN = dict(BASE, NVB="1", InitLog="<- EmptyLog", Kinds='{"mut", "del", "exp", "sys", "adv"}', Keys='{"user", "conn", "txn"}',
            OldEvents="TRUE", BadEvents="TRUE", MaxSaves="1", Rollbacks="TRUE", FailSaves="FALSE")
@@ -36,6 +36,11 @@ CFGS = {
     "MCData2": mc(DATA),
     "MCDataF1": mc(DATA, Savers='{"p", "c"}', MaxSaves="3", MaxAcks="3", Bugs='{"F1"}'),   # expected to violate C05 (pre-fix model)
     "MCDataF7": mc(DATA, Bugs='{"F7"}'),                                                   # expected to violate C05 (pre-fix model)
+    # an acknowledgement caught inside the consumer's TrackOffset (between the position store and the dirty mark) while saves go on
+    "MCAckQ": mc(DATA, AckSplit="TRUE", MaxAcks="1", MaxSaves="2", MaxCrash="0", MaxGen="1"),
+    "MCAck": mc(DATA, AckSplit="TRUE", Savers='{"p", "c"}', MaxAcks="2", MaxSaves="2", MaxCrash="0", MaxGen="1"),
+    "SimAck": simc(DATA, 48, AckSplit="TRUE", Savers='{"p", "c"}', MaxSaves="4", MaxAcks="4"),
+    "WitAck": wit(DATA, AckSplit="TRUE", MaxCrash="0", MaxSaves="2", MaxAcks="2", MaxGen="1", FailSaves="FALSE"),
     "SimData": simc(DATA, 48, Savers='{"p", "c"}', MaxSaves="4", MaxAcks="4"),
     "ReplayData": rep(DATA, Savers='{"p", "c"}', MaxSaves="10", MaxAcks="10", MaxCrash="3", MaxGen="4"),
     # ---- generated server events ----------------------------------------------------------------------------
@@ -77,7 +82,7 @@ CFGS = {
     "WitFaultLatest": wit(FAULT, AutoReset='"latest"'),
     "WitReplayFault": rep(FAULT, MaxFail="5", MaxSaves="5", MaxAcks="5", MaxCrash="3", MaxGen="5"),
     "WitReplayFaultLatest": rep(FAULT, MaxFail="5", MaxSaves="5", MaxAcks="5", MaxCrash="3", MaxGen="5", AutoReset='"latest"'),
-    "WitReplayData": rep(DATA, Savers='{"p", "c"}', MaxSaves="10", MaxAcks="10", MaxCrash="3", MaxGen="4"),
+    "WitReplayData": rep(DATA, AckSplit="TRUE", Savers='{"p", "c"}', MaxSaves="10", MaxAcks="10", MaxCrash="3", MaxGen="4"),
     "WitReplayGen": rep(GEN, MaxSeq="4", MaxSaves="10", MaxAcks="10", MaxCrash="3", MaxGen="4"),
     "WitReplayLife1": rep(LIFE, NVB="1", MaxSeq="3", MaxSaves="5", MaxAcks="5", MaxNotify="5", MaxEnds="6", Hold="TRUE"),
     "WitReplayLife": rep(LIFE, MaxSeq="3", MaxSaves="5", MaxAcks="5", MaxNotify="5", MaxEnds="6", Hold="TRUE"),
